@@ -7,7 +7,7 @@ use proptest::strategy::Strategy;
 use serde::{Deserialize, Serialize};
 use serde_json::json;
 
-pub const RULE: &str = "case = a list of depth-limited searches run one after the other on one PersistentState (hash 0/1/2/3/16 MB): games = root (repository FEN, tactical theme, or a forced-mate / tiny-tree theme: KQK, KRK, KRRK, back rank, pawn races, blocked pawns; for and against the side to move) plus 0-8 moves, depth 1..D; the earlier searches are of the parent / child / sibling positions of the main game or a self-play continuation, so that the table holds entries (also mate entries at other distances) when the later ones run. A Reporter receives every SearchInfo: PV non-empty, every PV move legal in the position reached so far (reference model), depths 1,2,3.. without gaps and <= the requested depth, Mate(n>0) => PV length 2n-1 ending in checkmate of the opponent, Mate(n<0) => length 2|n| with the searching side mated, Mate(0) never; the returned move is legal. Non-trivial = search that announces a mate or runs on a non-empty table; distinct by (fen, moves, depth, index in the list).";
+pub const RULE: &str = "case = a list of depth-limited searches run one after the other on one PersistentState (hash 0/1/2/3/16 MB): games = root (repository FEN, tactical theme, or a forced-mate / tiny-tree theme: KQK, KRK, KRRK, back rank, pawn races, blocked pawns; for and against the side to move) plus 0-8 moves, depth 1..D; the earlier searches are of the parent / child / sibling positions of the main game or a self-play continuation, so that the table holds entries (also mate entries at other distances) when the later ones run. A Reporter receives every SearchInfo: PV non-empty, every PV move legal in the position reached so far (reference model), depths 1,2,3.. without gaps and <= the requested depth, Mate(n>0) => PV length 2n-1 ending in checkmate of the opponent, Mate(n<0) => length 2|n| with the searching side mated, Mate(0) never; the returned move is legal. The same kind of list also goes through the shipped binary, whose textual 'info depth .. score cp|mate .. pv ..' lines are parsed and judged by the same oracle (plus hashfull <= 1000). Non-trivial = search that announces a mate or runs on a non-empty table; distinct by (fen, moves, depth, index in the list).";
 
 #[derive(Serialize, Deserialize, Clone, Debug)]
 pub enum Case {
@@ -129,6 +129,73 @@ pub fn run_list(hash_mb: usize, searches: &[SearchSpec], st: &mut Stats) -> Resu
     Ok(())
 }
 
+/// The same lists through the shipped binary: the textual 'info' lines are parsed and judged.
+fn run_list_binary(hash_mb: usize, searches: &[SearchSpec], st: &mut Stats) -> Result<(), Fail> {
+    use super::ucilib::Engine;
+    use std::time::Duration;
+    let ex = || json!({"Explicit": {"hash_mb": hash_mb, "searches": searches}});
+    let mut e = Engine::spawn(&[]).map_err(|x| Fail::new("binary:io", x))?;
+    let died = |e: &Engine, what: String| -> Fail {
+        let tail: Vec<String> = e.transcript.iter().rev().take(6).rev().cloned().collect();
+        Fail::new("binary:engine_died", format!("{what}; last lines: {tail:?}")).explicit(ex())
+    };
+    e.send(&format!("setoption name Hash value {hash_mb}")).map_err(|x| died(&e, x))?;
+    for (i, spec) in searches.iter().enumerate() {
+        let Some((pos, _)) = build(spec) else { continue };
+        if pos.legal_moves().is_empty() {
+            continue;
+        }
+        let Limit::Depth(d) = spec.limit else { continue };
+        st.eval();
+        let pos_cmd = if spec.moves.is_empty() { format!("position fen {}", spec.fen) } else { format!("position fen {} moves {}", spec.fen, spec.moves.join(" ")) };
+        e.send(&pos_cmd).map_err(|x| died(&e, x))?;
+        e.send(&format!("go depth {d}")).map_err(|x| died(&e, x))?;
+        let mut lines: Vec<Line> = vec![];
+        loop {
+            match e.read_line(Duration::from_secs(180)) {
+                Ok(Some(l)) => {
+                    if l.starts_with("info ") {
+                        match parse_info_line(&l) {
+                            Some(line) => {
+                                // hashfull is a permille value
+                                if let Some(h) = l.split_whitespace().skip_while(|t| *t != "hashfull").nth(1).and_then(|t| t.parse::<u32>().ok()) {
+                                    if h > 1000 {
+                                        return Err(Fail::new("report:hashfull_range", format!("search #{i}: hashfull {h} in '{l}'")).explicit(ex()));
+                                    }
+                                }
+                                lines.push(line)
+                            }
+                            None => return Err(Fail::new("report:unreadable_info_line", format!("search #{i} at {}: cannot read '{l}'", pos.to_fen())).explicit(ex())),
+                        }
+                    } else if l.starts_with("bestmove ") {
+                        let mv = l.split_whitespace().nth(1).unwrap_or("");
+                        if !pos.legal_moves().iter().any(|m| m.uci() == mv) {
+                            return Err(Fail::new("bestmove_illegal", format!("search #{i}: '{l}' is not legal in {}", pos.to_fen())).explicit(ex()));
+                        }
+                        break;
+                    } else if l.contains("panic") {
+                        return Err(died(&e, format!("panic output: {l}")));
+                    }
+                }
+                Ok(None) => return Err(died(&e, format!("output ended during search #{i}"))),
+                Err(x) => return Err(died(&e, x)),
+            }
+        }
+        if lines.is_empty() {
+            return Err(Fail::new("report:nothing_reported", format!("search #{i} at {} depth {d}: no info line", pos.to_fen())).explicit(ex()));
+        }
+        check_lines(&pos, &lines, Some(d), st).map_err(|f| f.explicit(ex()))?;
+        if lines.iter().any(|l| l.mate.is_some()) || i > 0 {
+            st.nontrivial(&(spec.fen.clone(), spec.moves.clone(), d, i));
+            if st.want_nontrivial_sample() {
+                st.nontrivial_sample(json!({"position": pos_cmd, "depth": d, "last_info": lines.last().map(|l| l.text.clone())}));
+            }
+        }
+    }
+    e.quit();
+    Ok(())
+}
+
 pub fn run(run: &mut Run) -> &'static str {
     let tier = run.tier;
     let max_depth = tier.pick(7u8, 10u8);
@@ -145,6 +212,20 @@ pub fn run(run: &mut Run) -> &'static str {
         },
         Case::Explicit { hash_mb, searches } => run_list(*hash_mb, searches, st),
     });
+    if profile_name() == "checked" && super::ucilib::engine_available() {
+        let cases = tier.pick(400, 6_000);
+        let strat = tape(16..120).prop_map(Case::Tape);
+        run.proptest_part("binary_info_lines", RULE, strat, cases, move |c: &Case, st: &mut Stats| match c {
+            Case::Tape(t) => match build_case(t, tier, max_depth.min(6), 6) {
+                Some((h, s)) => run_list_binary(h, &s, st),
+                None => {
+                    st.discard();
+                    Ok(())
+                }
+            },
+            Case::Explicit { hash_mb, searches } => run_list_binary(*hash_mb, searches, st),
+        });
+    }
     if let Ok(bin) = std::env::var("VERIF_FAST_BIN") {
         if profile_name() == "checked" && run.only_parts.is_empty() {
             run_sub_process(run, &bin, &["searches"]);
